@@ -66,8 +66,8 @@ def main():
         f = io.split('\t'); pr = []
         want = oracle(kind, a, b)
         n_eq += want
-        if 'P' in (f[0], f[1], f[2]):
-            pr.append('comparison panicked')
+        if len(f) < 3 or 'P' in (f[0], f[1], f[2]):
+            pr.append('comparison panicked'); f = (f + ['P'] * 12)[:12]
         else:
             if f[0] != ('1' if want else '0'):
                 pr.append('a == b is %s, the documented equivalence says %s' % (f[0], want))
